@@ -110,13 +110,13 @@ theorem countActive_modifyAt (l : List Conn) (i : Nat) (f : Conn → Conn) (p : 
       simp only [modifyAt, countActive_cons]
       omega
 
-theorem countActive_map_goAway (l : List Conn) :
-    countActive (l.map (fun c => { c with goAway := c.goAway + 1 })) = countActive l := by
+theorem countActive_map_goAway (l : List Conn) (k : Nat) :
+    countActive (l.map (fun c => { c with goAway := c.goAway + 1, notified := c.notified + k })) = countActive l := by
   induction l with
   | nil => rfl
   | cons c r ih => simp only [List.map_cons, countActive_cons, ih]
 
-theorem countActive_append_idle (l : List Conn) : countActive (l ++ [⟨.idle, 0, 0⟩]) = countActive l := by
+theorem countActive_append_idle (l : List Conn) : countActive (l ++ [⟨.idle, 0, 0, 0, 0⟩]) = countActive l := by
   induction l with
   | nil => decide
   | cons c r ih => simp only [List.cons_append, countActive_cons, ih]
@@ -146,7 +146,7 @@ theorem step_lis_not_running (s : Sys) (e : Ev) (h : s.lis.state ≠ ListenerRun
   · cases e with
     | connect => simp only; split <;> exact h
     | bytes i => simp only; split <;> exact h
-    | decoded i => simp only; split <;> exact h
+    | decoded i => simp only; split <;> (try split) <;> exact h
     | respDone i => simp only; split <;> exact h
     | signal stage =>
       simp only
@@ -175,7 +175,7 @@ theorem step_stopInv (s : Sys) (e : Ev) (h : stopInv s) : stopInv (step s e) := 
       cases e with
       | connect => simp only at hb; split at hb <;> simp [hnb] at hb
       | bytes i => simp only at hb; split at hb <;> simp [hnb] at hb
-      | decoded i => simp only at hb; split at hb <;> simp [hnb] at hb
+      | decoded i => simp only at hb; split at hb <;> (try split at hb) <;> simp [hnb] at hb
       | respDone i => simp only at hb; split at hb <;> simp [hnb] at hb
       | signal stage =>
         simp only [Bool.false_eq_true, ↓reduceIte]
@@ -198,7 +198,7 @@ theorem step_conns_length (s : Sys) (e : Ev) (h : s.lis.state ≠ ListenerRunnin
   · cases e with
     | connect => simp [accepting_false_of_state s.lis h]
     | bytes i => simp only; split <;> simp [modifyAt_length]
-    | decoded i => simp only; split <;> simp [modifyAt_length]
+    | decoded i => simp only; split <;> (try split) <;> simp [modifyAt_length]
     | respDone i => simp only; split <;> simp [modifyAt_length]
     | signal stage => simp only [onShutdownWaits, onShutdownBroadcasts, ↓reduceIte]; split <;> simp
     | tick d => rfl
@@ -237,7 +237,7 @@ theorem step_exitInv (s : Sys) (e : Ev) (h : exitInv s) : exitInv (step s e) := 
     cases e with
     | connect => simp only at hb; split at hb <;> simp [hex'] at hb
     | bytes i => simp only at hb; split at hb <;> simp [hex'] at hb
-    | decoded i => simp only at hb; split at hb <;> simp [hex'] at hb
+    | decoded i => simp only at hb; split at hb <;> (try split at hb) <;> simp [hex'] at hb
     | respDone i => simp only at hb; split at hb <;> simp [hex'] at hb
     | signal stage => simp only [onShutdownWaits, onShutdownBroadcasts, ↓reduceIte] at hb; split at hb <;> simp [hex'] at hb
     | tick d => simp [hex'] at hb
@@ -272,11 +272,17 @@ theorem step_wf (s : Sys) (e : Ev) (h : s.wf) : (step s e).wf := by
       simp only
       split
       · rename_i hp
-        have := countActive_modifyAt s.conns i (fun c => { c with phase := .active }) .idle hp .active (fun _ => rfl)
-        simp only [this, h]; simp
+        split
+        · have := countActive_modifyAt s.conns i (fun c => { c with phase := .idle, refusedReq := c.refusedReq + 1 }) .idle hp .idle (fun _ => rfl)
+          simp only [this, h]; simp
+        · have := countActive_modifyAt s.conns i (fun c => { c with phase := .active }) .idle hp .active (fun _ => rfl)
+          simp only [this, h]; simp
       · rename_i hp
-        have := countActive_modifyAt s.conns i (fun c => { c with phase := .active }) .incomplete hp .active (fun _ => rfl)
-        simp only [this, h]; simp
+        split
+        · have := countActive_modifyAt s.conns i (fun c => { c with phase := .idle, refusedReq := c.refusedReq + 1 }) .incomplete hp .idle (fun _ => rfl)
+          simp only [this, h]; simp
+        · have := countActive_modifyAt s.conns i (fun c => { c with phase := .active }) .incomplete hp .active (fun _ => rfl)
+          simp only [this, h]; simp
       · exact h
     | respDone i =>
       simp only
